@@ -1,6 +1,10 @@
 //! Engine E6 `sim`: C31, C34, C36-C40 against `hydro_lang::sim` (see /verif/DESIGN.md).
 
+mod c31;
+mod c34;
 mod c38;
+mod c39;
+mod c40;
 mod experiments;
 mod hookchecks;
 mod hooklevel;
@@ -38,6 +42,22 @@ fn main() {
         "C38" => {
             ctx.rule = "corpus of 13 simulator programs (ordered/unordered/keyed batches, slices with snapshots, hooked top-level fold, two ticks, top-level and in-tick ordering observations, 3-member cluster relay over fail-stop TCP, quorum helper, atomic keyed counter, 3-member raft) x proptest decision tapes (0..4096 bytes; bolero's byte driver pads with zeros); each tape is replayed with CompiledSim::fuzz_repro + run_with_scheduler_and_logger twice in this process and (per program, batches of tapes) once in a freshly spawned process; decision log (colour off), outputs and verdict are compared. Non-trivial: the decision log has >=5 non-trivial decisions. Distinct: hash of (program, tape).".into();
             c38::run(&mut ctx);
+        }
+        "C39" => {
+            ctx.rule = "collect_quorum / collect_quorum_with_response over 14 configurations ((min,max) in {(1,1),(2,2),(2,3),(1,3),(2,4)} ordered, plus unordered (2,2),(2,3),(1,3)) x proptest response sequences over <=3 keys with Ok/Err mixes and <=max responses per key, split into 1-3 rounds separated by sim::quiesce(); sequences of <=6 responses are run under CompiledSim::exhaustive (every batching inside a round), sequences of <=12 under fuzz_repro with a sampled tape; join_responses: 4 keys x metadata phase x response phase under exhaustive. Non-trivial: a key reaches min strictly before max and receives further responses afterwards (join: >=2 responses and a second metadata phase). Distinct: hash of the case.".into();
+            c39::run(&mut ctx);
+        }
+        "C31" => {
+            ctx.rule = "simulator half: slice programs (batch+count snapshot of the same stream, unordered batch, use::state accumulator, use::state_null carried stream, snapshot of a keyed monotone singleton) emitting every slice's raw observation; all schedules (CompiledSim::exhaustive) for 0..=4 input items (thorough 5), proptest inputs of 5-10 items with sampled decision tapes beyond. Non-trivial: >=3 slice executions with >=2 non-empty batches in some explored schedule. Distinct: hash of (program, input, tape).".into();
+            c31::run(&mut ctx);
+        }
+        "C34" => {
+            ctx.rule = "simulator half: the tutorial keyed counter (atomic) and a single atomic counter; proptest scripts of 1-5 phases (writes to 2 keys, wait for all outstanding acknowledgements or not, reads); scripts of <=4 operations under CompiledSim::exhaustive, <=12 operations with sampled tapes; oracle: a read issued after an awaited acknowledgement answers >= the acknowledged writes of its key and <= all writes. Non-trivial: a read with >=1 acknowledged write while further writes of the key exist, or two such reads. The non-atomic tutorial variant and a non-atomic twin are negative controls.".into();
+            c34::run(&mut ctx);
+        }
+        "C40" => {
+            ctx.rule = "raft: 3 members, fail-stop TCP, proptest input scripts (4-28 events: election timer, heartbeat timer, client request per member, optional quiesce barriers; optionally prefixed by a race-free election+commit) x proptest decision tapes (0-4096 bytes) through fuzz_repro; oracle: per-member committed indexes contiguous from 1, pairwise prefix-consistent histories, raft_step's truncation guard never fires. paxos (components only): index_payloads under exhaustive for 1-5 payloads with/without a phase barrier; acceptor_p2 with generated promised ballots and P2a sets (exhaustive <=3, tapes <=8). Non-trivial (raft): >=2 distinct candidates and >=1 committed entry.".into();
+            c40::run(&mut ctx);
         }
         "X-exp" => {
             experiments::run();
